@@ -117,19 +117,23 @@ class FType:
     width: int  # number of bits of the type (bool: 1)
     enum: Optional[EnumDef] = None
     inner_name: str = ""  # custom / nested type name
+    path: str = ""  # how the type is spelled in the declaration: '' | 'qualified' | 'abs' | 'std'
 
     def decl_ty(self) -> str:
         k = self.kind
         if k == "bool":
             return "bool"
         if k == "uint":
+            if self.path and not is_native(self.width):
+                return ("::" if self.path == "abs" else "") + f"arbitrary_int::u{self.width}"
             return f"u{self.width}"
         if k == "int":
             return f"i{self.width}"
         if k == "enum":
             return self.enum.name
         if k == "optenum":
-            return f"Option<{self.enum.name}>"
+            pre = {"": "", "qualified": "core::option::", "abs": "::core::option::", "std": "std::option::"}[self.path]
+            return f"{pre}Option<{self.enum.name}>"
         return self.inner_name
 
     def setter_ty(self) -> str:
@@ -144,7 +148,7 @@ class FType:
 
     def sig(self):
         e = self.enum.sig() if self.enum else None
-        return (self.kind, self.width, e)
+        return (self.kind, self.width, e, self.path)
 
 
 def T_bool():
@@ -256,6 +260,7 @@ class Layout:
     tag: str = ""  # free-text provenance (which generator, which boundary)
     expect_valid: Optional[bool] = None  # filled by rule oracle
     derives: str = ""
+    const_name: str = "DEF_CONST"  # name of the named-constant default
 
     @property
     def storage(self):
@@ -285,10 +290,10 @@ class Layout:
             else:
                 v = self.default[1]
                 if self.native:
-                    out.append(f"pub const DEF_CONST: {self.base_ty()} = {v:#x};")
+                    out.append(f"pub const {self.const_name}: {self.base_ty()} = {v:#x};")
                 else:
-                    out.append(f"pub const DEF_CONST: u{self.storage} = {v:#x};")
-                args.append(f"default{sep} DEF_CONST")
+                    out.append(f"pub const {self.const_name}: u{self.storage} = {v:#x};")
+                args.append(f"default{sep} {self.const_name}")
         if self.debug:
             args.append("debug")
         out.append(f"#[bitfield({', '.join(args)})]")
@@ -304,7 +309,7 @@ class Layout:
         return "\n".join(out)
 
     def sig(self):
-        return (self.base, tuple(f.sig() for f in self.fields), self.default, self.debug, self.legacy)
+        return (self.base, tuple(f.sig() for f in self.fields), self.default, self.debug, self.legacy, self.const_name)
 
     # ---- rule oracle, property C09 -------------------------------------------------------------
     def rule_valid(self) -> bool:
